@@ -61,6 +61,10 @@ type ShipConnection struct {
 	// and before that state was entered
 	approvedEarly bool
 
+	// a hello message of the remote side is expected and was not received yet: its first
+	// one after the pending state was entered, or the reply to a prolongation request
+	helloOutstanding bool
+
 	// starting the handshake has to be done only once
 	startMux sync.Mutex
 
@@ -157,6 +161,12 @@ func (c *ShipConnection) ApprovePendingHandshake() {
 		return
 	}
 
+	// a hello message of the remote side which is still on its way must not reach the
+	// protocol handshake, so it is awaited in the ready state like SHIP 13.4.4.1.3 defines it
+	if c.isHelloOutstanding() {
+		return
+	}
+
 	// TODO: check if we need to do some validations before moving on to the next state
 	c.setAndHandleState(model.SmeHelloStateOk)
 }
@@ -231,6 +241,20 @@ func (c *ShipConnection) closeDataConnectionAndReport(code int, reason string, h
 		c.dataWriter.CloseDataConnection(code, reason)
 		c.infoProvider.HandleConnectionClosed(c, handshakeEnd)
 	})
+}
+
+func (c *ShipConnection) setHelloOutstanding(value bool) {
+	c.mux.Lock()
+	defer c.mux.Unlock()
+
+	c.helloOutstanding = value
+}
+
+func (c *ShipConnection) isHelloOutstanding() bool {
+	c.mux.Lock()
+	defer c.mux.Unlock()
+
+	return c.helloOutstanding
 }
 
 func (c *ShipConnection) setShutdown() {
